@@ -180,18 +180,24 @@ def f_origin_pattern(s, r):
     exp, got = r.choice(ORIGIN_PATTERNS)
     s.exp_origin = exp if r.random() < 0.6 else [exp, "https://other.example"]
     s.origin = got
-def f_cd_unsigned_affix(s, r):
-    # bytes put around the client data AFTER it was hashed and signed (transport noise, a re-serialising proxy): the hash no longer matches, or it is no JSON
-    from harness import srcdict
-    BOM = b"\xef\xbb\xbf"
-    pre, own = r.choice([(BOM, b""), (BOM + BOM, b""), (BOM + b"\xbb", b""), (BOM + b"\xbf\xbb", b""), (b" ", b""), (b"\n", b""), (b"\xbb\xbf", BOM), (BOM, BOM), (b"\xbf", BOM), (b"\xfe\xff", b""), (b"\x00", b"")]
-                        + [(p, b"") for p in srcdict.byte_prefixes()] + [(b"", b"")])
-    suf = b"" if pre else r.choice([b" ", b"\n", b"\x00"])
+BOM = b"\xef\xbb\xbf"
+def _affix(s, pre, suf, own):
     s.cd_prefix = own
     def post(a, pre=pre, suf=suf, own=own):
         # presented = own prefix kept, then the extra bytes spliced in right after it (so that a "strip the marks" reading swallows them)
         a.cdj = own + pre + a.cdj[len(own):] + suf
     s.post = post
+def f_cd_unsigned_affix(s, r):
+    # bytes put around the client data AFTER it was hashed and signed (transport noise, a re-serialising proxy) that leave it well-formed JSON:
+    # the hash no longer matches
+    pre, suf, own = r.choice([(BOM, b"", b""), (b" ", b"", b""), (b"\n", b"", b""), (b"", b" ", b""), (b"", b"\n", b""), (b"", b"\r\n", BOM), (b" ", b" ", b""), (b"\t", b"", b"")])
+    _affix(s, pre, suf, own)
+def f_cd_unsigned_affix_malformed(s, r):
+    # ... and affixes that make it something json.loads refuses (a second byte order mark, stray mark bytes, NUL): no JSON, no ceremony
+    from harness import srcdict
+    pre, suf, own = r.choice([(BOM + BOM, b"", b""), (BOM + b"\xbb", b"", b""), (BOM + b"\xbf\xbb", b"", b""), (b"\xbb\xbf", b"", BOM), (BOM, b"", BOM), (b"\xbf", b"", BOM), (b"\xfe\xff", b"", b""),
+                              (b"\x00", b"", b""), (b"", b"\x00", b""), (b"", BOM, b"")] + [(p, b"", b"") for p in srcdict.byte_prefixes()])
+    _affix(s, pre, suf, own)
 def f_origin_substring(s, r):
     # client origin is a proper substring / superstring of the expected one
     s.exp_origin = "https://example.com:8443"
@@ -277,7 +283,7 @@ FAULTS = {
     "id-not-b64-rawid:padded-1": id_fault("padded-1"), "id-not-b64-rawid:padded-2": id_fault("padded-2"), "id-not-b64-rawid:last-char-spare-bits": id_fault("last-char-spare-bits"),
     "id-not-b64-rawid:newline-appended": id_fault("newline-appended"), "id-not-b64-rawid:dot-inserted": id_fault("dot-inserted"), "id-not-b64-rawid:standard-alphabet": id_fault("standard-alphabet"),
     "id-not-b64-rawid:char-appended": id_fault("char-appended"), "id-not-b64-rawid:truncated": id_fault("truncated"), "id-not-b64-rawid:empty": id_fault("empty"),
-    "credential-type": f_cred_type, "challenge-base64url-alias": f_challenge_b64_alias, "origin-alias-spelling": f_origin_alias, "client-data-affix-not-signed": f_cd_unsigned_affix, "origin-expected-read-as-pattern": f_origin_pattern, "declared-algorithm-of-another-family": f_declared_alg_foreign,
+    "credential-type": f_cred_type, "challenge-base64url-alias": f_challenge_b64_alias, "origin-alias-spelling": f_origin_alias, "client-data-affix-not-signed": f_cd_unsigned_affix, "client-data-malformed-affix-not-signed": f_cd_unsigned_affix_malformed, "origin-expected-read-as-pattern": f_origin_pattern, "declared-algorithm-of-another-family": f_declared_alg_foreign,
 }
 # faults that can only be expressed in some input forms
 RECORD_ONLY = {"credential-type"}
